@@ -93,7 +93,7 @@ def rule_commit(ctx):
             for a in [(x[0], x[1]) for x in blk.term["arms"]] + [("otherwise", blk.term["otherwise"])]:
                 if b.blocks[a[1]].term["k"] == "unreachable" and not b.blocks[a[1]].stmts:
                     continue  # the `_ => unreachable` edge of an exhaustive match
-                reach = b.reachable_from(a[1], include_start=True)
+                reach = b.threaded_reach(a[1])   # follows a value built as Err(..) through the `?` that inspects it
                 is_err_edge = a[0] == 1 or (a[0] == "otherwise" and 0 in [x[0] for x in blk.term["arms"]])
                 if is_err_edge:
                     verdicts.append(bool(errs & reach) and cb not in reach)
